@@ -14,7 +14,8 @@ Rel == [kind |-> "rel", uri |-> U0]
 BadLoc == [kind |-> "bad", uri |-> U0]
 TransportError == [kind |-> "error", loc |-> Rel]
 \* allow-list focus: every pattern list of length <= 2 (sampled), every initial URI, scripts of <= 1 hop to a few targets
-AllowLists == {<<p>> : p \in Patterns} \cup {<<p, q>> : p \in {Pat("none", "A", FALSE, "none"), Pat("https", "none", FALSE, "none")}, q \in Patterns}
+\* (the empty list is a configured allow-list that matches nothing: every request is refused)
+AllowLists == {<<>>} \cup {<<p>> : p \in Patterns} \cup {<<p, q>> : p \in {Pat("none", "A", FALSE, "none"), Pat("https", "none", FALSE, "none")}, q \in Patterns}
 HopTargets == {U("https", "A", "none"), U("http", "SA", "8080"), U("https", "B", "none"), U("https", "FA", "none"), U("https", "loopback", "none")}
 AllowScripts == {<<>>} \cup {<<Redirect(Rel)>>} \cup {<<Redirect(Abs(t))>> : t \in HopTargets}
 \* redirect focus: no allow-list or one wildcard; all scripts of <= 2 hops over every location class
